@@ -245,6 +245,7 @@ func (e *Enc) invEnv(fr *frame, li *loopInfo, st *bstate, subst map[ssa.Value]ss
 	env.block = li.header
 	env.idx = firstNonPhi(li.header)
 	env.subst = subst
+	env.loop = li
 	return env
 }
 
@@ -253,6 +254,14 @@ func (e *Enc) invEnv(fr *frame, li *loopInfo, st *bstate, subst map[ssa.Value]ss
 func (e *Enc) autoInvariants(fr *frame, li *loopInfo, subst map[ssa.Value]ssa.Value) []string {
 	var out []string
 	h := li.header
+	if rm := e.headerRange(li); rm != nil {
+		// position of the map iterator stays within the enumeration
+		hp := e.curIterHeap
+		if hp != "" {
+			pos := app("select", hp, rm.it)
+			out = append(out, sAnd(app("<=", "0", pos), app("<=", pos, app(rm.rn, rm.it))))
+		}
+	}
 	for _, in := range h.Instrs {
 		p, ok := in.(*ssa.Phi)
 		if !ok {
@@ -365,6 +374,7 @@ func b0(latch, h *ssa.BasicBlock) bool { return latch.Succs[0] == h }
 func (e *Enc) checkInvariant(fr *frame, li *loopInfo, from *ssa.BasicBlock, st *bstate, kind string) {
 	cls := e.loopClauses(li)
 	subst := phiSubst(li, from)
+	e.curIterHeap = st.heap["IT!pos"]
 	for i, t := range e.autoInvariants(fr, li, subst) {
 		o := e.oblige(st, kind, fmt.Sprintf("loop%d.auto%d", li.ordinal, i), t, li.header.Instrs[0].Pos())
 		if o != nil {
@@ -390,6 +400,7 @@ func (e *Enc) checkInvariant(fr *frame, li *loopInfo, from *ssa.BasicBlock, st *
 }
 
 func (e *Enc) assumeInvariant(fr *frame, li *loopInfo, st *bstate) {
+	e.curIterHeap = st.heap["IT!pos"]
 	for _, t := range e.autoInvariants(fr, li, nil) {
 		e.assume(st.reach, t)
 	}
@@ -518,6 +529,9 @@ func (e *Enc) encodeInstr(fr *frame, b *ssa.BasicBlock, idx int, in ssa.Instruct
 			return
 		}
 		e.nilCheck(st, base.T, "field "+si.St.Field(x.Field).Name(), x.Pos())
+		if len(e.P.reg.Guards) > 0 {
+			e.guardCheck(st, x, base.T)
+		}
 		if e.W.structInfo(ft) != nil {
 			e.setVal(x, Val{T: e.subRef(st0, x.Field, base.T)})
 			return
@@ -655,7 +669,7 @@ func (e *Enc) encodeInstr(fr *frame, b *ssa.BasicBlock, idx int, in ssa.Instruct
 		e.havocAll(st, "select")
 		e.setVal(x, e.freshVal(st, x.Type(), "select"))
 	case *ssa.Range:
-		e.setVal(x, Val{T: e.term(st, x.X), Typ: x.X.Type()})
+		e.encodeRange(fr, st, x)
 	case *ssa.Next:
 		e.encodeNext(fr, st, x)
 	case *ssa.MultiConvert, *ssa.SliceToArrayPointer:
@@ -700,7 +714,7 @@ func (e *Enc) encodeIndexAddr(st *bstate, x *ssa.IndexAddr) {
 	case *types.Slice:
 		s := base.T
 		e.oblige(st, "index", e.anchor(x.Pos(), "index"), sAnd(app("<=", "0", i), app("<", i, app("slength", s))), x.Pos())
-		e.setVal(x, Val{Loc: &Loc{Comp: e.W.elemComp(t.Elem()), Idx: []string{app("sbase", s), app("+", app("soff", s), i)}, Typ: t.Elem()}})
+		e.setVal(x, Val{Loc: &Loc{Comp: e.W.elemComp(t.Elem()), Idx: []string{app("sbase", s), app("idx", app("soff", s), i)}, Typ: t.Elem()}})
 	case *types.Pointer: // pointer to array
 		at := t.Elem().Underlying().(*types.Array)
 		e.oblige(st, "index", e.anchor(x.Pos(), "index"), sAnd(app("<=", "0", i), app("<", i, fmt.Sprint(at.Len()))), x.Pos())
@@ -1192,6 +1206,81 @@ func (e *Enc) encodeTypeAssert(st *bstate, x *ssa.TypeAssert) {
 	}
 }
 
+type rangeModel struct {
+	it    string // iterator reference
+	m     string // map term
+	mt    *types.Map
+	rk    string // (it, pos) -> key
+	ri    string // (it, key) -> pos
+	rn    string // it -> number of keys
+	exact bool
+}
+
+func (e *Enc) iterComp() *Comp { return e.W.comp("IT!pos", "(Array Int Int)", "iter") }
+
+// mapRangeExact: the loop that iterates rng does not add/remove keys of that map type.
+func (e *Enc) mapRangeExact(fr *frame, rng *ssa.Range, mt *types.Map) bool {
+	if e.dry {
+		return true
+	}
+	d, _, _ := e.W.mapComps(mt)
+	for _, ref := range *rng.Referrers() {
+		nx, ok := ref.(*ssa.Next)
+		if !ok {
+			continue
+		}
+		li := fr.loops[nx.Block()]
+		if li == nil {
+			return false
+		}
+		w := e.loopWrites(li)
+		if w["*"] || w[d.Name] {
+			return false
+		}
+	}
+	return true
+}
+
+// encodeRange sets up the ghost enumeration of a map's keys: a duplicate-free
+// sequence rk(it,0..rn-1) that covers exactly the keys present when the range
+// statement starts (any order: the sequence is uninterpreted).
+func (e *Enc) encodeRange(fr *frame, st *bstate, x *ssa.Range) {
+	mt, ok := x.X.Type().Underlying().(*types.Map)
+	if !ok {
+		e.setVal(x, Val{T: e.term(st, x.X), Typ: x.X.Type()})
+		return
+	}
+	m := e.term(st, x.X)
+	rm := &rangeModel{m: m, mt: mt, exact: e.mapRangeExact(fr, x, mt)}
+	e.ranges[x] = rm
+	e.setVal(x, Val{T: m, Typ: x.X.Type()})
+	if !rm.exact {
+		e.note("map modified while ranging over it: iteration modelled as 'some present key'")
+		return
+	}
+	ks := e.W.sortOf(mt.Key())
+	e.nfresh++
+	id := e.nfresh
+	rm.rk, rm.ri, rm.rn = fmt.Sprintf("rk!%d", id), fmt.Sprintf("ri!%d", id), fmt.Sprintf("rn!%d", id)
+	e.items = append(e.items, fmt.Sprintf("(declare-fun %s (Int Int) %s)", rm.rk, ks),
+		fmt.Sprintf("(declare-fun %s (Int %s) Int)", rm.ri, ks), fmt.Sprintf("(declare-fun %s (Int) Int)", rm.rn))
+	rm.it = e.newRef(st, "iter")
+	d, _, l := e.W.mapComps(mt)
+	dom := app("select", e.heapVar(st, d), m)
+	inDom := func(k string) string { return sAnd(sNot(sEq(m, "0")), app("select", dom, k)) }
+	n := app(rm.rn, rm.it)
+	e.assume(st.reach, sEq(n, sIte(sEq(m, "0"), "0", app("select", e.heapVar(st, l), m))))
+	e.assume(st.reach, app(">=", n, "0"))
+	e.assume(st.reach, fmt.Sprintf("(forall ((p Int)) (! (=> (and (<= 0 p) (< p %s)) (and %s (= (%s %s (%s %s p)) p))) :pattern ((%s %s p))))",
+		n, inDom(app(rm.rk, rm.it, "p")), rm.ri, rm.it, rm.rk, rm.it, rm.rk, rm.it))
+	e.assume(st.reach, fmt.Sprintf("(forall ((k %s)) (! (=> %s (and (<= 0 (%s %s k)) (< (%s %s k) %s) (= (%s %s (%s %s k)) k))) :pattern ((%s %s k)) :pattern ((select %s k))))",
+		ks, inDom("k"), rm.ri, rm.it, rm.ri, rm.it, n, rm.rk, rm.it, rm.ri, rm.it, rm.ri, rm.it, dom))
+	ic := e.iterComp()
+	old := e.heapVar(st, ic)
+	nv := e.newHeapVersion(st, ic)
+	e.assert(sEq(nv, app("store", old, rm.it, "0")))
+}
+
 func (e *Enc) encodeNext(fr *frame, st *bstate, x *ssa.Next) {
 	rng, _ := x.Iter.(*ssa.Range)
 	if x.IsString || rng == nil {
@@ -1204,9 +1293,6 @@ func (e *Enc) encodeNext(fr *frame, st *bstate, x *ssa.Next) {
 		e.setVal(x, e.freshVal(st, x.Type(), "next"))
 		return
 	}
-	// Sound over-approximation of map iteration: each step yields some key that is
-	// currently present together with its current value (order, coverage and
-	// no-repetition are not modelled).
 	m := e.val(rng).T
 	okv := e.fresh("next.ok", "Bool")
 	k := e.fresh("next.k", e.W.sortOf(mt.Key()))
@@ -1214,12 +1300,37 @@ func (e *Enc) encodeNext(fr *frame, st *bstate, x *ssa.Next) {
 	d, vc, _ := e.W.mapComps(mt)
 	e.assert(e.typeInv(k, mt.Key()))
 	e.assert(e.typeInv(v, mt.Elem()))
+	// each step yields a key that is currently present together with its current value
 	e.assume(st.reach, sImp(okv, sAnd(sNot(sEq(m, "0")), app("select", app("select", e.heapVar(st, d), m), k),
 		sEq(v, app("select", app("select", e.heapVar(st, vc), m), k)))))
+	if rm := e.ranges[rng]; rm != nil && rm.exact {
+		// ... namely the next one of the ghost enumeration
+		ic := e.iterComp()
+		old := e.heapVar(st, ic)
+		pos := app("select", old, rm.it)
+		e.assume(st.reach, sEq(okv, app("<", pos, app(rm.rn, rm.it))))
+		e.assume(st.reach, sImp(okv, sEq(k, app(rm.rk, rm.it, pos))))
+		nv := e.newHeapVersion(st, ic)
+		e.assume(st.reach, sEq(nv, app("store", old, rm.it, sIte(okv, app("+", pos, "1"), pos))))
+	}
 	vv := Val{T: v, Typ: mt.Elem()}
 	e.assumeAllocated(st, vv)
 	e.assume(st.reach, sImp(okv, e.mapValueInv(mt, k, v)))
 	e.setVal(x, Val{Tup: []Val{{T: okv, Typ: types.Typ[types.Bool]}, {T: k, Typ: mt.Key()}, vv}})
+}
+
+// headerRange finds the exact map-range model iterated by the Next in a loop header.
+func (e *Enc) headerRange(li *loopInfo) *rangeModel {
+	for _, in := range li.header.Instrs {
+		if nx, ok := in.(*ssa.Next); ok {
+			if rng, ok := nx.Iter.(*ssa.Range); ok {
+				if rm := e.ranges[rng]; rm != nil && rm.exact {
+					return rm
+				}
+			}
+		}
+	}
+	return nil
 }
 
 // runDefersAt executes, in reverse order, the deferred calls whose Defer
